@@ -1,8 +1,9 @@
 // C04 correspondence harness: runs the real fcppt::optional / either / variant combinators on the operation
 // lines described in lean/FcpptModel/Drv/C04.lean and prints the same canonical result lines
 //     <result> | <call log>
-// Element types are distinct tagged ints whose move constructor poisons the source (value 9), so that a
-// double move / use after move inside a combinator shows up in the result or in the logged arguments.
+// Element types are distinct tagged heap-allocated ints whose move constructor empties the source (reads as 9), so
+// that a double move / use after move inside a combinator shows up in the result or in the logged arguments and a
+// dangling reference / leak shows up in ASan/LSan.
 #include "common/vh.hpp"
 
 #include <fcppt/function_impl.hpp>
@@ -70,28 +71,41 @@ struct E2 // any other exception type
 
 constexpr int poison = 9;
 
+// The payload lives on the heap so that ASan/LSan see a dangling reference, a double destruction or a lost
+// object inside a combinator; a moved-from object has no payload and reads as `poison`.
 template <int Tag>
 struct val
 {
   static constexpr int tag = Tag;
-  int v;
-  explicit val(int const x) : v{x} {}
-  val(val const &) = default;
-  val(val &&o) noexcept : v{o.v} { o.v = poison; }
-  val &operator=(val const &) = default;
+  int *p;
+  explicit val(int const x) : p{new int{x}} {}
+  val(val const &o) : p{o.p != nullptr ? new int{*o.p} : nullptr} {}
+  val(val &&o) noexcept : p{o.p} { o.p = nullptr; }
+  val &operator=(val const &o)
+  {
+    if (&o != this)
+    {
+      int *const n{o.p != nullptr ? new int{*o.p} : nullptr};
+      delete p;
+      p = n;
+    }
+    return *this;
+  }
   val &operator=(val &&o) noexcept
   {
     if (&o != this)
     {
-      v = o.v;
-      o.v = poison;
+      delete p;
+      p = o.p;
+      o.p = nullptr;
     }
     return *this;
   }
-  ~val() = default;
-  friend bool operator==(val const &a, val const &b) { return a.v == b.v; }
-  friend bool operator!=(val const &a, val const &b) { return a.v != b.v; }
-  friend bool operator<(val const &a, val const &b) { return a.v < b.v; }
+  ~val() { delete p; }
+  [[nodiscard]] int v() const { return p != nullptr ? *p : poison; }
+  friend bool operator==(val const &a, val const &b) { return a.v() == b.v(); }
+  friend bool operator!=(val const &a, val const &b) { return a.v() != b.v(); }
+  friend bool operator<(val const &a, val const &b) { return a.v() < b.v(); }
 };
 
 using A = val<0>;
@@ -154,7 +168,7 @@ struct io<val<Tag>>
     ++p;
     return val<Tag>{c - '0'};
   }
-  static std::string sh(val<Tag> const &x) { return std::to_string(x.v); }
+  static std::string sh(val<Tag> const &x) { return std::to_string(x.v()); }
 };
 
 template <typename T>
@@ -223,9 +237,9 @@ struct io<var3>
     // printed through std::variant directly, not through the functions under test
     switch (x.impl().index())
     {
-    case 0: return "A" + std::to_string(std::get<0>(x.impl()).v);
-    case 1: return "B" + std::to_string(std::get<1>(x.impl()).v);
-    case 2: return "C" + std::to_string(std::get<2>(x.impl()).v);
+    case 0: return "A" + std::to_string(std::get<0>(x.impl()).v());
+    case 1: return "B" + std::to_string(std::get<1>(x.impl()).v());
+    case 2: return "C" + std::to_string(std::get<2>(x.impl()).v());
     default: return "VALUELESS";
     }
   }
@@ -322,8 +336,8 @@ auto fn1(char const *const site, table<Rt> const &t)
 {
   return [site, &t](X x) -> Rt
   {
-    lg(site, {x.v});
-    return t.at(ix(x.v));
+    lg(site, {x.v()});
+    return t.at(ix(x.v()));
   };
 }
 template <typename Rt, typename X, typename Y>
@@ -331,8 +345,8 @@ auto fn2(char const *const site, table<Rt> const &t)
 {
   return [site, &t](X x, Y y) -> Rt
   {
-    lg(site, {x.v, y.v});
-    return t.at(ix(x.v) * 3 + ix(y.v));
+    lg(site, {x.v(), y.v()});
+    return t.at(ix(x.v()) * 3 + ix(y.v()));
   };
 }
 template <typename Rt, typename X, typename Y, typename Z>
@@ -340,8 +354,8 @@ auto fn3(char const *const site, table<Rt> const &t)
 {
   return [site, &t](X x, Y y, Z z) -> Rt
   {
-    lg(site, {x.v, y.v, z.v});
-    return t.at((ix(x.v) * 3 + ix(y.v)) * 3 + ix(z.v));
+    lg(site, {x.v(), y.v(), z.v()});
+    return t.at((ix(x.v()) * 3 + ix(y.v())) * 3 + ix(z.v()));
   };
 }
 template <typename Rt>
@@ -505,10 +519,10 @@ std::string op(std::vector<std::string> const &t)
     auto const p = tbl<bool>(3, t[3]);
     return cat1(t[1], tok<oA>(t[2]), [&](auto &&x) -> oA
                 {
-                  return fo::filter(FWD(x), [&p](A const &a) -> bool
+                  return fo::filter(FWD(x), [&p](A a) -> bool // by value: a combinator that moves into the predicate poisons the result
                                     {
-                                      lg("p", {a.v});
-                                      return p.at(ix(a.v));
+                                      lg("p", {a.v()});
+                                      return p.at(ix(a.v()));
                                     });
                 });
   }
@@ -543,7 +557,7 @@ std::string op(std::vector<std::string> const &t)
   {
     return cat1(t[1], tok<oA>(t[2]), [&](auto &&x) -> std::string
                 {
-                  fo::maybe_void(FWD(x), [](A a) { lg("t", {a.v}); });
+                  fo::maybe_void(FWD(x), [](A a) { lg("t", {a.v()}); });
                   return "u";
                 });
   }
@@ -686,7 +700,7 @@ std::string op(std::vector<std::string> const &t)
           q.pop_front();
           return r;
         },
-        [](A a) { lg("b", {a.v}); }));
+        [](A a) { lg("b", {a.v()}); }));
   }
   if (o == "e.from_opt" && n == 4)
   {
@@ -751,8 +765,8 @@ std::string op(std::vector<std::string> const &t)
                       {
                         int const i = std::remove_cvref_t<decltype(a)>::tag;
                         auto const a2{FWD(a)}; // consume the argument the way a by-value parameter would
-                        lg("f", {i, a2.v});
-                        return f.at(i * 3 + ix(a2.v));
+                        lg("f", {i, a2.v()});
+                        return f.at(i * 3 + ix(a2.v()));
                       },
                       FWD(x));
                 });
@@ -769,8 +783,8 @@ std::string op(std::vector<std::string> const &t)
                         int const j = std::remove_cvref_t<decltype(b)>::tag;
                         auto const a2{FWD(a)};
                         auto const b2{FWD(b)};
-                        lg("f", {i, a2.v, j, b2.v});
-                        return f.at(((i * 3 + ix(a2.v)) * 3 + j) * 3 + ix(b2.v));
+                        lg("f", {i, a2.v(), j, b2.v()});
+                        return f.at(((i * 3 + ix(a2.v())) * 3 + j) * 3 + ix(b2.v()));
                       },
                       FWD(x), FWD(y));
                 });
@@ -794,8 +808,8 @@ std::string op(std::vector<std::string> const &t)
                             {
                               int const i = std::remove_cvref_t<decltype(a)>::tag;
                               static_assert(std::is_same_v<decltype(a), decltype(b)>);
-                              lg("c", {i, a.v, b.v});
-                              return c.at((i * 3 + ix(a.v)) * 3 + ix(b.v));
+                              lg("c", {i, a.v(), b.v()});
+                              return c.at((i * 3 + ix(a.v())) * 3 + ix(b.v()));
                             }));
   }
   if (o == "v.cmp" && n == 3)
